@@ -82,6 +82,8 @@ fn main() {
             Err(_) => ("panic".to_string(), "n/a".to_string()),
         };
         let _ = writeln!(out, "{}\t{}\t{}\talloc={}", id, a, b, maxalloc);
+        // flush per request: if the implementation kills the process (SIGSEGV, abort) the harness can tell which request did it
+        let _ = out.flush();
     }
     let _ = out.flush();
 }
